@@ -1,11 +1,23 @@
-import Rtsp.Model.TimeDec
-import Rtsp.Model.Ntp
-import Rtsp.Model.SenderReport
+import Rtsp.Proofs.TimeDecRef
+import Rtsp.Proofs.Ntp
+import Rtsp.Proofs.SenderReport
 /-
-C15 — timestamps: 64-bit PTS continuation and NTP mapping.  (theorems are added below as they are proved)
+C15 — timestamps: 64-bit PTS continuation and NTP mapping.
+
+Property (properties.jsonl): "Presentation timestamps computed for a track are the 64-bit continuation
+of its 32-bit RTP timestamps: the PTS difference between two packets equals the signed 32-bit
+differences accumulated along the way, across any number of wrap-arounds, and a track that starts
+later is placed on the leading track's timeline.  Once a sender report has been processed, the
+absolute time returned for a packet equals the time the writer associated with that packet's RTP
+timestamp to within one clock tick plus NTP rounding, and NTP encoding and decoding are mutually
+inverse to within a nanosecond."
+
+Models: Model/TimeDec.lean (pkg/rtptime), Model/Ntp.lean (pkg/ntp), Model/SenderReport.lean
+(rtpsender.report, rtpreceiver.ProcessSenderReport / PacketNTP).  All statements quantify over all
+histories / inputs; `int64` is modelled by `Int` (no-overflow range: props/C15.json "assumptions").
 -/
 namespace Rtsp.C15
-open Rtsp
+open Rtsp Rtsp.TimeDec
 
 /-- the shapes of the Go expressions the models mirror are still present in /repo (regenerated facts) -/
 theorem facts_shape :
@@ -13,5 +25,228 @@ theorem facts_shape :
     Facts.Time.signedDeltaExpr = true ∧ Facts.Time.mulDivExpr = true ∧ Facts.Time.senderRtpExpr = true ∧
     Facts.Time.receiverDiffExpr = true ∧ Facts.Time.ntpEpochOffsetEnc = Facts.Time.ntpEpochOffsetDec ∧
     Facts.Time.nanosPerSecEnc = 1000000000 := by decide
+
+/-! ## PTS: 64-bit continuation of the 32-bit RTP timestamps
+
+`trace id ops results` is the list of `(RTP timestamp, PTS)` of the packets of track `id` that
+`Decode` gave a PTS, in order, for a run `ops` of `Decode` calls on any number of interleaved tracks,
+from an arbitrary decoder state `s`. -/
+
+/-- **PTS(j) − PTS(i) = Σ int32(ts_{l+1} − ts_l)** for any two packets `i ≤ j` of a track, whatever the
+other tracks do in between, for every history and any number of wrap-arounds. -/
+theorem pts_diff_eq_sum_of_signed_deltas (s : State) (ops : List Op) (id : Nat) (i j : Nat)
+    (hij : i ≤ j) (hj : j < (trace id ops (run s ops).2).length) :
+    (trace id ops (run s ops).2)[j].2 - (trace id ops (run s ops).2)[i].2
+      = sumDeltas (trace id ops (run s ops).2)[i].1
+          ((((trace id ops (run s ops).2).drop (i + 1)).take (j - i)).map Prod.fst) :=
+  Chained_diff _ (trace_chained s ops id) i j hij hj
+
+/-- non-vacuity: a two-track history in which track 1 wraps forwards and then backwards -/
+def sampleOps : List Op :=
+  [ { id := 1, rate := 90000, eq := true, ts := 4294967000, now := 1000000000 },
+    { id := 2, rate := 48000, eq := true, ts := 5, now := 1500000000 },
+    { id := 1, rate := 90000, eq := true, ts := 100, now := 2000000000 },
+    { id := 1, rate := 90000, eq := false, ts := 4294967290, now := 2000000000 } ]
+
+example : (run init sampleOps).2 = [some 0, some 24000, some 396, some 290] := by decide
+example : trace 1 sampleOps (run init sampleOps).2 = [(4294967000, 0), (100, 396), (4294967290, 290)] := by
+  decide
+
+/-- **one step**: if the writer's clock moved by `step` ticks with `|step| < 2^31` (the timestamp field
+carries `prev + step` modulo 2^32), the PTS moves by exactly `step` — forwards, backwards, across a wrap. -/
+theorem pts_step_exact (s : State) (o : Op) (t : Track) (step : Int)
+    (hr : o.rate ≠ 0) (ht : s.tracks o.id = some t)
+    (hlo : -2147483648 ≤ step) (hhi : step < 2147483648)
+    (hts : (o.ts.toNat : Int) = ((t.prev.toNat : Int) + step) % 4294967296) :
+    (decode s o).2 = some (t.overall + step) := by
+  rw [(decode_old s o hr t ht).1, sdelta_of_step t.prev o.ts step hlo hhi hts]
+
+example : (4294967290 : UInt32).toNat = 4294967290 ∧
+    ((100 : UInt32).toNat : Int) = (((4294967000 : UInt32).toNat : Int) + 396) % 4294967296 := by decide
+
+/-- **any number of wraps**: if the timestamps of a track are the low 32 bits of a writer clock
+`w 0, w 1, …` (unbounded integers) whose consecutive values differ by less than 2^31 in absolute value,
+then `PTS(j) − PTS(i) = w j − w i` for all `i ≤ j`: the PTS *is* the writer's 64-bit clock up to the
+start offset. -/
+theorem pts_follows_writer_clock (s : State) (ops : List Op) (id : Nat) (w : Nat → Int)
+    (hts : ∀ k (hk : k < (trace id ops (run s ops).2).length),
+              (trace id ops (run s ops).2)[k].1 = low32 (w k))
+    (hstep : ∀ k, k + 1 < (trace id ops (run s ops).2).length →
+              -2147483648 ≤ w (k + 1) - w k ∧ w (k + 1) - w k < 2147483648)
+    (i j : Nat) (hij : i ≤ j) (hj : j < (trace id ops (run s ops).2).length) :
+    (trace id ops (run s ops).2)[j].2 - (trace id ops (run s ops).2)[i].2 = w j - w i :=
+  Chained_writer _ (trace_chained s ops id) w hts hstep i j hij hj
+
+/-- the PTS difference is congruent to the timestamp difference modulo 2^32 (no hypothesis on steps) -/
+theorem pts_congruent_mod_2_32 (s : State) (ops : List Op) (id : Nat) (i j : Nat)
+    (hij : i ≤ j) (hj : j < (trace id ops (run s ops).2).length) :
+    ((trace id ops (run s ops).2)[j].2 - (trace id ops (run s ops).2)[i].2
+      - (((trace id ops (run s ops).2)[j].1.toNat : Int) - (trace id ops (run s ops).2)[i].1.toNat))
+      % 4294967296 = 0 :=
+  Chained_congr _ (trace_chained s ops id) i j hij hj
+
+/-- which packets get a PTS -/
+theorem pts_available_iff (s : State) (o : Op) :
+    (decode s o).2.isSome = true ↔ o.rate ≠ 0 ∧ (s.tracks o.id ≠ none ∨ o.eq = true) :=
+  decode_isSome_iff s o
+
+/-! ## multiplyAndDivide -/
+
+/-- `multiplyAndDivide v m d = ⌊v·m/d⌋` for non-negative `v`, `m` and positive `d` (exactly, although the
+Go code never forms `v·m`) -/
+theorem mulDiv_floor {v m d : Int} (hv : 0 ≤ v) (hm : 0 ≤ m) (hd : 0 < d) :
+    mulDiv v m d = (v * m) / d := mulDiv_nonneg_eq hv hm hd
+
+example : mulDiv 12345678901 48000 90000 = (12345678901 * 48000) / 90000 := by decide
+
+/-- for all signs it is Go's truncated quotient of the exact product -/
+theorem mulDiv_trunc (v m d : Int) (hd : d ≠ 0) : mulDiv v m d = (v * m).tdiv d :=
+  mulDiv_eq_tdiv v m d hd
+
+/-- the result is off the exact quotient by less than one unit: `|v·m − d·result| < |d|` -/
+theorem mulDiv_error_lt_one (v m d : Int) (hd : d ≠ 0) :
+    (v * m - d * mulDiv v m d).natAbs < d.natAbs := mulDiv_error_lt v m d hd
+
+/-! ## a track that starts later is placed on the leading track's timeline
+
+`leaderRef none ops results` is computed from the *history* alone: the track of the first packet that
+got a PTS leads; the reference point is the PTS and wall-clock instant of the leader's latest packet
+with PTS = DTS (PTS 0 at the instant of election to begin with). -/
+
+/-- the decoder's `startPTS / startSystem / startPTSClockRate / leadingTrack` are exactly the reference
+point defined by the history -/
+theorem leader_reference_is_history (ops : List Op) :
+    stateRef (run init ops).1 = leaderRef none ops (run init ops).2 :=
+  (run_ref ops init inv_init).2
+
+/-- the packet that elects the leader gets PTS 0 -/
+theorem leader_starts_at_zero (o : Op) (p : Int) (h : (decode init o).2 = some p) : p = 0 :=
+  first_pts_zero o p h
+
+/-- **late track**: after any history `pre` in which a leader exists with reference point `ref`, the
+first packet `o` of a track not seen before (PTS = DTS, clock rate ≠ 0) gets
+
+    start = A + B,   A = ref.pts · rate / ref.rate,   B = (now − ref.now) · rate / 10^9
+
+where each quotient is truncated: `|ref.pts·rate − ref.rate·A| < |ref.rate|` and
+`|(now − ref.now)·rate − 10^9·B| < 10^9` — each rescaling is off by less than one tick of the new track. -/
+theorem late_track_on_leader_timeline (pre : List Op) (o : Op) (ref : Ref)
+    (hr : o.rate ≠ 0) (he : o.eq = true) (hnew : (run init pre).1.tracks o.id = none)
+    (href : leaderRef none pre (run init pre).2 = some ref) :
+    ∃ A B : Int,
+      (decode (run init pre).1 o).2 = some (A + B) ∧ ref.rate ≠ 0 ∧
+      (ref.pts * o.rate - ref.rate * A).natAbs < ref.rate.natAbs ∧
+      ((o.now - ref.now) * o.rate - 1000000000 * B).natAbs < 1000000000 := by
+  have hI := run_ref pre init inv_init
+  have hsi : stateRef init = none := rfl
+  rw [hsi, href] at hI
+  obtain ⟨hinv, hsr⟩ := hI
+  generalize (run init pre).1 = s at *
+  cases hl : s.leading with
+  | none => simp [stateRef, hl] at hsr
+  | some L =>
+    simp only [stateRef, hl, Option.some.injEq] at hsr
+    have hel : elect s o = s := by simp [elect, hl]
+    have hnz : s.startRate ≠ 0 := hinv.rateNZ L hl
+    refine ⟨mulDiv s.startPTS o.rate s.startRate, mulDiv (o.now - s.startSystem) o.rate 1000000000, ?_, ?_, ?_, ?_⟩
+    · rw [(decode_new s o hr hnew he).1, hel]; rfl
+    · rw [← hsr]; exact hnz
+    · rw [← hsr]; exact mulDiv_error_lt _ _ _ hnz
+    · rw [← hsr]; exact mulDiv_error_lt _ _ _ (by decide)
+
+/-- non-vacuity: the second track of `sampleOps` joins 0.5 s after the leader started -/
+example : leaderRef none (sampleOps.take 1) (run init (sampleOps.take 1)).2
+    = some { leader := 1, rate := 90000, pts := 0, now := 1000000000 } := by decide
+
+/-! ## NTP encoding / decoding -/
+
+/-- **Decode ∘ Encode**: for every instant of NTP era 0 (1900-01-01 ≤ t < 2036-02-07 06:28:16 UTC, Unix
+nanoseconds; the property asks for 1970 … 2036) `Decode (Encode t)` is `t` or `t − 1 ns`. -/
+theorem ntp_decode_encode (t : Int) (hlo : -2208988800000000000 ≤ t) (hhi : t < 2085978496000000000) :
+    t - 1 ≤ Ntp.decode (Ntp.encode t) ∧ Ntp.decode (Ntp.encode t) ≤ t :=
+  Ntp.decode_encode t hlo hhi
+
+example : Ntp.encode 1700000000123456789 = 16788979056960527671 ∧
+    Ntp.decode 16788979056960527671 = 1700000000123456788 := by decide
+
+/-- **Encode ∘ Decode**: for every 64-bit NTP value `v`, `Encode (Decode v)` has the same seconds and a
+fraction between `v − 4` and `v` units of 2^-32 s (4 units = 0.93 ns). -/
+theorem ntp_encode_decode (v : Nat) (hv : v < 18446744073709551616) :
+    Ntp.encode (Ntp.decode v) ≤ v ∧ v ≤ Ntp.encode (Ntp.decode v) + 4 ∧
+    Ntp.encode (Ntp.decode v) / 4294967296 = v / 4294967296 :=
+  Ntp.encode_decode v hv
+
+/-- `Encode t` is the nearest 32.32 fixed-point value of the NTP time of `t` (RFC 3550 §4) -/
+theorem ntp_encode_nearest (t : Int) (hlo : -2208988800000000000 ≤ t) (hhi : t < 2085978496000000000) :
+    2 * ((Ntp.encode t : Int) * 1000000000 - (t + 2208988800000000000) * 4294967296) ≤ 1000000000 ∧
+    -1000000000 ≤ 2 * ((Ntp.encode t : Int) * 1000000000 - (t + 2208988800000000000) * 4294967296) :=
+  Ntp.encode_nearest t hlo hhi
+
+/-- `Decode v` is the NTP value in Unix nanoseconds rounded down -/
+theorem ntp_decode_floor (v : Nat) :
+    0 ≤ (v : Int) * 1000000000 - (Ntp.decode v + 2208988800000000000) * 4294967296 ∧
+    (v : Int) * 1000000000 - (Ntp.decode v + 2208988800000000000) * 4294967296 < 4294967296 :=
+  Ntp.decode_floor v
+
+/-- Encode's fraction never reaches 2^32, so `secs<<32 | fractional` never corrupts the seconds -/
+theorem ntp_fraction_no_carry (n : Nat) (hn : n < 1000000000) : Ntp.encFrac n ≤ 4294967292 :=
+  Ntp.encFrac_lt n hn
+
+/-! ## sender report → PacketNTP -/
+
+/-- exact decomposition of `PacketNTP` after a report (see `SR.packet_ntp_exact`) -/
+theorem packet_ntp_exact (s : SR.Sender) (r : SR.Recv) (now : Int) (e : Nat) (ts : UInt32) (k : Int)
+    (hrate : r.rate = s.rate) (hR : 0 < s.rate)
+    (hTlo : -2208988800000000000 ≤ s.lastNTP + (now - s.lastSystem))
+    (hThi : s.lastNTP + (now - s.lastSystem) < 2085978496000000000)
+    (hts : (ts.toNat : Int) = ((s.lastRTP.toNat : Int) + k) % 4294967296)
+    (hlo : -2147483648 ≤ k - e) (hhi : k - e < 2147483648) :
+    ∃ P ε τ : Int,
+      (r.processSR (s.reportWith now e).ntp (s.reportWith now e).rtp).packetNTP ts = some P ∧
+      (ε = 0 ∨ ε = -1) ∧ -s.rate < τ ∧ τ < s.rate ∧
+      s.rate * (P - s.lastNTP) - k * 1000000000
+        = ((now - s.lastSystem) * s.rate - e * 1000000000) + s.rate * ε - τ :=
+  SR.packet_ntp_exact s r now e ts k hrate hR hTlo hThi hts hlo hhi
+
+/-- **PacketNTP within one tick (+ 2 ns of rounding) of the writer's time.**  The sender associated
+`lastNTP` with RTP timestamp `lastRTP` at system time `lastSystem`; at `now` it reports
+`(Encode (lastNTP + d), lastRTP + e)`, `d = now − lastSystem`, where `e` is the truncated float product
+`d.Seconds()·rate`, assumed within one tick of `d·rate/10^9` (hypotheses `hqlo`, `hqhi`; checked by the
+harness on every generated report).  For a packet whose timestamp lies `k` ticks from `lastRTP`
+(`|k − e| < 2^31`) the writer's time is `lastNTP + k·10^9/rate` ns, and
+
+    |rate·(PacketNTP ts − lastNTP) − k·10^9| < 10^9 + 2·rate
+
+i.e. the receiver's answer is within `1/rate s + 2 ns` of it. -/
+theorem packet_ntp_within_tick (s : SR.Sender) (r : SR.Recv) (now : Int) (e : Nat) (ts : UInt32) (k : Int)
+    (hrate : r.rate = s.rate) (hR : 0 < s.rate)
+    (hTlo : -2208988800000000000 ≤ s.lastNTP + (now - s.lastSystem))
+    (hThi : s.lastNTP + (now - s.lastSystem) < 2085978496000000000)
+    (hts : (ts.toNat : Int) = ((s.lastRTP.toNat : Int) + k) % 4294967296)
+    (hlo : -2147483648 ≤ k - e) (hhi : k - e < 2147483648)
+    (hqlo : -1000000000 ≤ (now - s.lastSystem) * s.rate - e * 1000000000)
+    (hqhi : (now - s.lastSystem) * s.rate - e * 1000000000 ≤ 1000000000 + s.rate) :
+    ∃ P : Int,
+      (r.processSR (s.reportWith now e).ntp (s.reportWith now e).rtp).packetNTP ts = some P ∧
+      -(1000000000 + 2 * s.rate) < s.rate * (P - s.lastNTP) - k * 1000000000 ∧
+      s.rate * (P - s.lastNTP) - k * 1000000000 < 1000000000 + 2 * s.rate :=
+  SR.packet_ntp_within_tick s r now e ts k hrate hR hTlo hThi hts hlo hhi hqlo hqhi
+
+/-- non-vacuity: 90 kHz, report 1 s after the packet, float product exact (e = 90000), query 10 ticks
+after the packet: the hypotheses hold and the model answers 111112 ns after `lastNTP` (exact: 111111.1) -/
+def sampleSender : SR.Sender :=
+  (SR.Sender.init 90000).processPacket 4294967290 1700000000000000000 true 5000000000 7 100
+
+example :
+    let s := sampleSender
+    (0 : Int) < s.rate ∧
+    -2208988800000000000 ≤ s.lastNTP + (6000000000 - s.lastSystem) ∧
+    s.lastNTP + (6000000000 - s.lastSystem) < 2085978496000000000 ∧
+    (((4 : UInt32).toNat : Int) = ((s.lastRTP.toNat : Int) + 10) % 4294967296) ∧
+    (-1000000000 ≤ (6000000000 - s.lastSystem) * s.rate - (90000 : Nat) * 1000000000) ∧
+    ((6000000000 - s.lastSystem) * s.rate - (90000 : Nat) * 1000000000 ≤ 1000000000 + s.rate) ∧
+    SR.floatTicks (6000000000 - s.lastSystem) s.rate = 90000 ∧
+    ((SR.Recv.init 90000).processSR (s.reportWith 6000000000 90000).ntp (s.reportWith 6000000000 90000).rtp).packetNTP 4
+      = some 1700000000000111112 := by decide
 
 end Rtsp.C15
